@@ -31,6 +31,17 @@ import (
 
 var errInjS3 = errors.New("sim: injected S3 failure")
 
+// injectedS3Error is what a failing S3 call returns: usually a plain transport error, every
+// third time the SDK's RequestCanceled (a per-request deadline of the client expired while the
+// caller's own context is alive).
+func (s *SimS3) injectedS3Error() error {
+	s.errKind++
+	if s.errKind%3 == 0 {
+		return awserr.New("RequestCanceled", "request context canceled", fmt.Errorf("%w (client-side request deadline)", errInjS3))
+	}
+	return errInjS3
+}
+
 type s3Call struct {
 	Op     string
 	Bucket string
@@ -55,6 +66,7 @@ type SimS3 struct {
 	ThrottlePutAt        int // n-th Put is answered with the SlowDown error code after the body was read
 	BodyFailAt           int // n-th Get returns a body that errors after BodyFailAfter bytes
 	BodyFailAfter        int
+	errKind              int
 	BodyFailKind         int // 0: the read returns a transport error; 1: the connection is cut (io.ErrUnexpectedEOF, fewer bytes than Content-Length)
 	ThrottleKind         int // which "try again" answer the service gives (code / HTTP status)
 	puts, gets           int
@@ -111,6 +123,40 @@ func (s *SimS3) release(p *s3Parked, outcome string) {
 	p.ch <- outcome
 }
 
+// isInjectedS3 reports whether err is (or carries, the SDK's way, as OrigErr) the simulator's
+// injected failure.
+func isInjectedS3(err error) bool {
+	for i := 0; err != nil && i < 8; i++ {
+		if errors.Is(err, errInjS3) {
+			return true
+		}
+		ae, ok := err.(awserr.Error)
+		if !ok {
+			var target awserr.Error
+			if !errors.As(err, &target) {
+				return false
+			}
+			ae = target
+		}
+		err = ae.OrigErr()
+	}
+	return false
+}
+
+// ctxBody is a response body tied to the request's context, as an HTTP response body is.
+type ctxBody struct {
+	ctx aws.Context
+	r   *bytes.Reader
+}
+
+func (b *ctxBody) Read(p []byte) (int, error) {
+	if err := b.ctx.Err(); err != nil {
+		return 0, err
+	}
+	return b.r.Read(p)
+}
+func (b *ctxBody) Close() error { return nil }
+
 type failingBody struct {
 	data  []byte
 	after int
@@ -144,7 +190,7 @@ func (s *SimS3) GetObjectWithContext(ctx aws.Context, in *s3.GetObjectInput, opt
 	s.Calls = append(s.Calls, s3Call{"get", aws.StringValue(in.Bucket), aws.StringValue(in.Key)})
 	if outcome == "fail" || (s.FailGetAt != 0 && s.gets == s.FailGetAt) {
 		s.Fired["s3-get-error"]++
-		return nil, errInjS3
+		return nil, s.injectedS3Error()
 	}
 	b, ok := s.objects[aws.StringValue(in.Bucket)+"\x00"+aws.StringValue(in.Key)]
 	if !ok {
@@ -169,8 +215,9 @@ func (s *SimS3) GetObjectWithContext(ctx aws.Context, in *s3.GetObjectInput, opt
 		}
 		return &s3.GetObjectOutput{Body: &failingBody{data: b, after: after, err: berr}, ContentLength: aws.Int64(int64(len(b)))}, nil
 	}
-	// like the real client, the response carries the object's Content-Length
-	return &s3.GetObjectOutput{Body: io.NopCloser(bytes.NewReader(append([]byte(nil), b...))), ContentLength: aws.Int64(int64(len(b)))}, nil
+	// like the real client, the response carries the object's Content-Length, and its body can be
+	// read only while the context the request was made under is alive
+	return &s3.GetObjectOutput{Body: &ctxBody{ctx: ctx, r: bytes.NewReader(append([]byte(nil), b...))}, ContentLength: aws.Int64(int64(len(b)))}, nil
 }
 
 func (s *SimS3) PutObjectWithContext(ctx aws.Context, in *s3.PutObjectInput, opts ...request.Option) (*s3.PutObjectOutput, error) {
@@ -196,7 +243,7 @@ func (s *SimS3) PutObjectWithContext(ctx aws.Context, in *s3.PutObjectInput, opt
 	}
 	if outcome == "fail" || (s.FailPutAt != 0 && s.puts == s.FailPutAt) {
 		s.Fired["s3-put-error"]++
-		return nil, errInjS3
+		return nil, s.injectedS3Error()
 	}
 	s.objects[aws.StringValue(in.Bucket)+"\x00"+aws.StringValue(in.Key)] = body
 	return &s3.PutObjectOutput{}, nil
@@ -384,7 +431,9 @@ func RunBackendScenario(t *testing.T, sc *Scenario) (w *World) {
 	if clients == 1 {
 		w.runBackendSequential(sc, insts)
 	} else {
-		synctest.Test(t, func(t *testing.T) { w.runBackendConcurrent(sc, insts[0].p, insts[0].s3, clients) })
+		if p := inBubble(t, func(t *testing.T) { w.runBackendConcurrent(sc, insts[0].p, insts[0].s3, clients) }); p != nil {
+			panic(p)
+		}
 	}
 	for _, s3sim := range sims {
 		for k, v := range s3sim.Fired {
@@ -535,7 +584,14 @@ func (w *World) runBackendSequential(sc *Scenario, insts []*beInstance) {
 			var got []byte
 			r := guard(func() error {
 				var err error
-				got, err = p.Load(ctx, name)
+				lctx := ctx
+				if op.Key%2 == 1 {
+					// callers commonly work under a deadline, however distant
+					var cancel context.CancelFunc
+					lctx, cancel = context.WithTimeout(ctx, 24*time.Hour)
+					defer cancel()
+				}
+				got, err = p.Load(lctx, name)
 				return err
 			})
 			if s3sim != nil {
@@ -691,10 +747,10 @@ func (w *World) runBackendConcurrent(sc *Scenario, p mast.Persist, s3sim *SimS3,
 				name := beName(op.Key)
 				if op.K == "store" {
 					err := p.Store(cctx, name, append([]byte(nil), bePayload(op.Val)...))
-					r.out = regOutput{Err: err != nil, Injected: err != nil && errors.Is(err, errInjS3)}
+					r.out = regOutput{Err: err != nil, Injected: err != nil && isInjectedS3(err)}
 				} else {
 					b, err := p.Load(cctx, name)
-					r.out = regOutput{Err: err != nil, Injected: err != nil && errors.Is(err, errInjS3), Hash: fnv64(b), Len: len(b)}
+					r.out = regOutput{Err: err != nil, Injected: err != nil && isInjectedS3(err), Hash: fnv64(b), Len: len(b)}
 				}
 			}
 		}(c)
